@@ -123,6 +123,7 @@ var menus = map[string]string{
 	"MZ":   "PC PP0 NV NVM NVB VC",
 	"MNC":  "PC PP0 NC", // + the adversary's own messages signed over a non-canonical encoding of the header
 	"ME":   "NVE",
+	"MO":   "PC OUT NVO", // outsider (valid key, not a member): its own PREPARE/COMMIT/VIEW_CHANGE, and NEW_VIEWs of a Byzantine leader padded with its vote
 	"MCS":  "PC CS", // + own COMMIT carrying another member's random-seed share
 	"MX":   "PC PX", // + PREPARE / COMMIT for a hash nobody proposed
 	"MT":   "PC NVT", // NEW_VIEW of a Byzantine leader whose embedded proposal declares another message type
@@ -245,6 +246,7 @@ func plan(prop, tier string) []run {
 		add("K1", "MALL", 0, mul*15*time.Second)
 		add("K2", "MALL", 0, mul*15*time.Second)
 		add("K6", "M7", 0, mul*10*time.Second)
+		add("K6@v1a", "MO", 0, mul*20*time.Second) // Byzantine leader of view 1 pads its NEW_VIEW with an outsider's vote: exhaustive
 		add("K3b@v4a", "M1", 0, mul*20*time.Second) // two correct members of weights 3,4 (both needed), views up to 4: exhaustive (~2.6e5 states)
 		add("K3b@v2", "M3", 0, mul*10*time.Second)  // every vote variant of two Byzantine members for the correct leader of view 2: exhaustive
 		add("K10^2@v1", "M0", 0, mul*5*time.Second)   // weights 7,1,1,1: the first leader is a quorum by itself and decides inside its own proposal step: exhaustive
